@@ -121,6 +121,18 @@ func uploadsWhileNesting(rec *vr.Rec, reps int) {
 				// upload 1 is answered; upload 2 continues
 				_, ok = waitFor(func(m ref.Msg) bool { return m.Code == 0x44 && bytes.Equal(m.Token, tok) })
 				if step("response to upload 1 (its nested request was answered by a separate message)", ok) {
+					// block-wise is lock-step: the device sends its next block when the previous one was answered (two receive
+					// goroutines may be at work on the connection, so "injected earlier" is not "processed earlier")
+					continues := func() int {
+						k := 0
+						for _, m := range sent() {
+							if m.Code == 0x5f && (m.MID == b2.MID || bytes.Equal(m.Token, tok)) {
+								k++
+							}
+						}
+						return k
+					}
+					step("continue for block 0 of upload 2", sim.WaitFor(6*time.Second, func() bool { return continues() >= 2 }))
 					inject(block(typ2, 1, false, body2[16:]))
 					n2, ok := waitFor(func(m ref.Msg) bool { return m.Code == 1 && pathOf(m) == "/nested/2" })
 					if step("nested request of upload 2", ok) {
@@ -147,7 +159,17 @@ func uploadsWhileNesting(rec *vr.Rec, reps int) {
 		case len(nestedErrs) > 0:
 			rec.Violation("C11/udp/blockwise-upload/nested-request-failed", fmt.Sprintf("%v (handler saw %d bodies)", nestedErrs, len(bodies)), c)
 		case stalled != "":
-			rec.Violation("C11/udp/blockwise-upload/stalled", "never seen: "+stalled, c)
+			var wire []string
+			for _, m := range sent() {
+				wire = append(wire, fmt.Sprintf("T%d %d.%02d mid=%d tok=%x b1=%v", m.Type, m.Code>>5, m.Code&31, m.MID, m.Token, func() any {
+					v, ok := m.GetUint(27)
+					if ok {
+						return v
+					}
+					return "-"
+				}()))
+			}
+			rec.Violation("C11/udp/blockwise-upload/stalled", fmt.Sprintf("never seen: %s (handler saw %d bodies; everything the connection sent: %v)", stalled, len(bodies), wire), c)
 		case len(bodies) != 2 || bodies[0] != string(body1) || bodies[1] != string(body2):
 			rec.Violation("C11/udp/blockwise-upload/handler-bodies", fmt.Sprintf("handler saw %q, the peer uploaded %q and %q", bodies, body1, body2), c)
 		default:
